@@ -35,21 +35,42 @@ def fval(c):
 
 
 def close(a, b, scale=1):
-  """ Equal; when a float is involved, within 1e-9 of the largest magnitude
-  seen so far in the run (exact rational arithmetic: nothing overflows). """
+  """ Equal, or within 1e-9 of the largest magnitude seen so far in the run
+  (computed in exact rational arithmetic: nothing overflows). """
   if isinstance(a, complex) or isinstance(b, complex):
     try:
       return abs(complex(a) - complex(b)) <= 1e-9 * max(
         1.0, abs(complex(b)), float(scale))
     except OverflowError:
       return True
-  if not isinstance(a, float) and not isinstance(b, float):
-    return a == b
+  if a == b:
+    return True
+  # (also between exact values: a filter that went through one floating
+  # point operation and holds "exact" copies of rounded numbers is not wrong
+  # for that; every genuine mistake is off by far more than 1e-9 here, the
+  # coefficients and samples being small rationals)
   try:
     fa, fb = Fraction(a), Fraction(b)
+  except TypeError:                        # not a number at all
+    return False
   except (OverflowError, ValueError):      # inf / nan out of float overflow
     return abs(Fraction(b)) > 10 ** 290 if not isinstance(b, float) else True
   return abs(fa - fb) <= Fraction(1, 10 ** 9) * max(1, abs(fb), scale)
+
+
+def psame(p, q):
+  """ Two polynomials (dict power -> coefficient) are the same: exactly when
+  everything is exact; when a coefficient is a float or complex (a filter
+  that computes in floating point is not wrong for that), within 1e-9 of the
+  largest coefficient. """
+  vals = list(p.values()) + list(q.values())
+  if p == q:
+    return True
+  scale = max([1] + [abs(v) for v in vals])
+  for k in set(p) | set(q):
+    if not close(p.get(k, 0), q.get(k, 0), scale):
+      return False
+  return True
 
 
 def all_close(xs, ys):
@@ -900,10 +921,10 @@ class C06(Property):
         na = dict((k, v) for k, v in na.items() if v != 0)
         da = dict((k, v) for k, v in da.items() if v != 0)
         if sub["op"] == "single":
-          if na != ns or da != ds:
+          if not psame(na, ns) or not psame(da, ds):
             raise _Mismatch("construction", "n=%d: built filter has num %r den "
                             "%r, specified num %r den %r" % (n, na, da, ns, ds))
-        elif pmul(na, ds) != pmul(ns, da):
+        elif not psame(pmul(na, ds), pmul(ns, da)):
           raise _Mismatch("algebra", "n=%d: composite num %r den %r is not the "
                           "%s of its operands (num %r den %r)"
                           % (n, na, da, sub["op"], ns, ds))
@@ -916,7 +937,7 @@ class C06(Property):
           shift = min(ds) if ds else 0
           ns2 = dict((k - shift, v) for k, v in ns.items())
           ds2 = dict((k - shift, v) for k, v in ds.items())
-          if na != ns2 or da != ds2:
+          if not psame(na, ns2) or not psame(da, ds2):
             raise _Mismatch("algebra:coefficient-sequences",
                             "n=%d: %s has num %r den %r, the term-by-term "
                             "result is num %r den %r"
@@ -1040,8 +1061,7 @@ class C06(Property):
         if out_len is not None and n >= out_len:
           raise _Mismatch("end:too-long", "output %d = %r although a reader "
                           "ended after %d items" % (n, y, out_len))
-        if not close(y, ys[n], max([1] + [abs(v) for v in ys[:n + 1]])
-                     if isinstance(y, (float, complex)) else 1):
+        if not close(y, ys[n], max([1] + [abs(v) for v in ys[:n + 1]])):
           raise _Mismatch("system", "y[%d] = %r, the difference equation on "
                           "the filter's own coefficients gives %r"
                           % (n, y, ys[n]))
